@@ -70,6 +70,13 @@ func dumpValue(v reflect.Value, depth int) (string, bool) {
 		parts := make([]string, v.NumField())
 		zero := true
 		for i := 0; i < v.NumField(); i++ {
+			if n := v.Type().Field(i).Name; n == "lastTriggerSync" || n == "lastQuorum" {
+				// progress bookkeeping of the block-sync trigger, volatile by design (the driver's own
+				// lastQuorum is in memory only, too): it decides whether TriggerSync is emitted again,
+				// never a vote
+				parts[i] = "~"
+				continue
+			}
 			s, z := dumpValue(v.Field(i), depth+1)
 			parts[i] = s
 			zero = zero && z
